@@ -17,8 +17,9 @@ from holopy.core.prior import make_center_priors
 from holopy.scattering import calc_holo, Sphere
 
 ID = "C18"
-LEAN_MODULES = ["HoloProps.C18"]
-MODEL_MODULES = ["HoloModel.ImgProc"]
+LEAN_MODULES = ["HoloProps.C18", "HoloProps.C18Gen"]
+MODEL_MODULES = ["HoloModel.ImgProc", "HoloGen.PyAcc"]
+GEN_DEPS = ["PyAcc"]
 NOT_PROVED = [
     "centre-finder accuracy (Hough voting + weighted refinement) is empirical: search only",
     "scipy.signal.detrend equals the closed-form least-squares line removal (sampled by the correspondence)",
